@@ -69,7 +69,8 @@ pub mod packed {
 }
 fn print_difficulties_distribution(_a: &packed::GetLastStateProof, _b: &[VerifiableHeader], _c: &U256) {}
 pub trait HeaderUtils { fn is_parent_of(&self, child: &Self) -> bool; fn is_child_of(&self, parent: &Self) -> bool { parent.is_parent_of(self) } }
-pub trait VerifiableHeaderPatch { fn patched_is_valid(&self, mmr_activated_epoch_number: EpochNumber) -> bool; }
+/// ckb-types `compact_to_difficulty`: in this unit a header's block difficulty IS its compact target (harnesses keep `diff == compact_target`)
+pub fn compact_to_difficulty(c: u32) -> U256 { U256(c as u64) }
 
 include!("extracted.rs");
 
@@ -78,8 +79,9 @@ mod harness {
     use super::*;
     fn any_epoch() -> EpochNumberWithFraction { EpochNumberWithFraction(kani::any()) }
     fn any_hv() -> HeaderView {
-        HeaderView { id: kani::any(), number: kani::any(), parent: kani::any(), epoch: any_epoch(), timestamp: 0, compact_target: 0,
-            diff: kani::any(), extra_hash: kani::any(), tx_root: 0, pow_ok: true }
+        let c: u32 = kani::any();
+        HeaderView { id: kani::any(), number: kani::any(), parent: kani::any(), epoch: any_epoch(), timestamp: 0, compact_target: c,
+            diff: c as u64, extra_hash: kani::any(), tx_root: 0, pow_ok: true }
     }
     fn any_vh() -> VerifiableHeader {
         let ext: Option<u8> = kani::any();
@@ -99,7 +101,7 @@ mod harness {
         let mut arr = [VerifiableHeader::default(); N];
         let mut i = 0;
         while i < N {
-            arr[i].header.number = kani::any(); arr[i].header.diff = kani::any(); arr[i].root.td = U256(kani::any());
+            arr[i].header.number = kani::any(); let c: u32 = kani::any(); arr[i].header.compact_target = c; arr[i].header.diff = c as u64; arr[i].root.td = U256(kani::any());
             if NO_OVERFLOW { kani::assume(arr[i].root.td.0.checked_add(arr[i].header.diff).is_some()); }
             i += 1;
         }
@@ -167,10 +169,74 @@ mod harness {
             kani::cover!(r >= 1 && s >= 1, "reorg + samples accepted");
         }
     }
+    // ------------------------------------------------------------------------------------------------
+    // O5.1: completeness - the response an RFC-44 server builds for the client's own request is accepted
+    // ------------------------------------------------------------------------------------------------
+    /// Reference model of the honest prover (RFC 44, "GetLastStateProof"): blocks 0..=T with positive difficulties, TD(n) = cumulative
+    /// difficulty up to and including block n.  No reorg (the start block is on the prover's chain).
+    ///   T - start <= last_n : all blocks start..T
+    ///   otherwise           : bb = first block in [start, T) with TD >= boundary, moved down to T - last_n if fewer than last_n follow;
+    ///                         last-N section = bb..T ; samples = for each requested difficulty the first block in [start, bb) reaching it
+    fn honest<const T: usize, const ND: usize, const KNOWN_CASE: bool>() {
+        let mut d = [0u64; T]; let mut tdv = [0u64; T];
+        let mut i = 0; let mut acc: u64 = 0;
+        while i < T { let c: u32 = kani::any(); kani::assume(c >= 1); d[i] = c as u64; acc += c as u64; tdv[i] = acc; i += 1; }
+        let last_no = T - 1;                       // the last header is block T-1; candidates are blocks 0..T-1
+        let last_n: usize = kani::any(); kani::assume(last_n >= 1 && last_n <= 2);
+        let start: usize = kani::any(); kani::assume(start < last_no);
+        let start_td = tdv[start];
+        let gap = last_no - start;
+        // the client's request (C15 post-conditions)
+        let nd: usize = kani::any(); kani::assume(nd <= ND);
+        let mut req = packed::GetLastStateProof { start_number: start as u64, boundary: U256(start_td), diffs: [U256(0); 4], nd: 0 };
+        let mut resp = [VerifiableHeader::default(); T]; let mut n = 0usize;
+        let mk = |k: usize| { let mut v = VerifiableHeader::default(); v.header.number = k as u64; v.header.compact_target = d[k] as u32; v.header.diff = d[k]; v.root.td = U256(tdv[k] - d[k]); v };
+        if gap <= last_n {
+            let mut k = start; while k < last_no { resp[n] = mk(k); n += 1; k += 1; }
+        } else {
+            let b: u64 = kani::any(); kani::assume(b > start_td && b <= tdv[last_no]);
+            kani::assume(nd >= 1);   // C15 post-condition: a sampling request carries at least one difficulty
+            req.boundary = U256(b); req.nd = nd;
+            let mut j = 0; while j < ND { if j < nd { let x: u64 = kani::any(); kani::assume(x >= start_td && x < b); if j > 0 { kani::assume(req.diffs[j - 1].0 < x); } req.diffs[j] = U256(x); } j += 1; }
+            let mut bb = last_no; let mut k = start; let mut found = false;
+            while k < last_no { if !found && tdv[k] >= b { bb = k; found = true; } k += 1; }
+            if last_no - bb < last_n { bb = last_no - last_n; }
+            // samples: first block in [start, bb) reaching each requested difficulty, de-duplicated, ascending
+            let mut k = start;
+            while k < bb { let mut hit = false; let mut j = 0; while j < ND { if j < nd { let x = req.diffs[j].0; if tdv[k] >= x && (k == start || tdv[k - 1] < x) && !(k == start && x <= tdv[k] - d[k]) { hit = true; } } j += 1; }
+                if hit { resp[n] = mk(k); n += 1; } k += 1; }
+            let mut k = bb; while k < last_no { resp[n] = mk(k); n += 1; k += 1; }
+        }
+        let mut last = VerifiableHeader::default(); last.header.number = last_no as u64;
+        // the case recorded as known finding C05/KF-1: a SAMPLING request whose honest answer consists of exactly last_n headers (no block
+        // below the last-N section reaches a requested difficulty), e.g. when the peer is exactly last_n + 1 blocks ahead
+        let known_case = gap > last_n && n == last_n;
+        kani::assume(known_case == KNOWN_CASE);
+        let r = check_if_response_is_matched(last_n, &req, &resp[..n], &last);
+        if KNOWN_CASE { assert!(r.is_ok(), "SPEC completeness (sampling request answered by exactly last_n headers): the honest response was rejected"); }
+        else { assert!(r.is_ok(), "SPEC completeness: the response an honest RFC-44 prover builds for the client's own request was rejected"); }
+        if !KNOWN_CASE { kani::cover!(gap > last_n && n >= 3, "a sampled response"); kani::cover!(gap <= last_n, "an all-blocks response"); }
+        else { kani::cover!(true, "a sampling request answered by exactly last_n headers"); kani::cover!(gap == last_n + 1, "the peer is exactly last_n + 1 blocks ahead"); }
+    }
+    #[kani::proof] #[kani::unwind(7)] fn honest_q() { honest::<5, 2, false>(); }
+    #[kani::proof] #[kani::unwind(9)] fn honest_t() { honest::<7, 3, false>(); }
+    #[kani::proof] #[kani::unwind(7)] fn honest_exactly_last_n() { honest::<5, 2, true>(); }
+
     #[kani::proof] #[kani::unwind(6)] fn shape_q() { shape::<4, 3, 2, true>(); }
     #[kani::proof] #[kani::unwind(7)] fn shape_t() { shape::<5, 4, 3, true>(); }
     /// C10: same function, NO assumption on the peer-supplied numbers (overflow of parent TD + difficulty included)
     #[kani::proof] #[kani::unwind(6)] fn shape_panic_q() { shape::<4, 3, 2, false>(); }
+
+    /// C10: the overflow guard is exact - when it answers `false`, VerifiableHeader::total_difficulty() cannot panic
+    #[kani::proof] #[kani::unwind(4)]
+    fn td_guard() {
+        let vh = any_vh();
+        let over = vh.is_total_difficulty_overflowed();
+        assert!(over == vh.root.td.0.checked_add(vh.header.diff).is_none(), "SPEC overflow guard: is_total_difficulty_overflowed differs from `parent total difficulty + block difficulty overflows`");
+        if !over { let t = vh.total_difficulty(); assert!(t.0 == vh.root.td.0 + vh.header.diff, "SPEC overflow guard: total difficulty"); }
+        kani::cover!(over, "an overflowing header");
+        kani::cover!(!over && vh.root.td.0 > 1 << 63, "a large but representable total difficulty");
+    }
 
     // ------------------------------------------------------------------------------------------------
     // O1.2: check_continuous_headers + the real is_parent_of
